@@ -267,7 +267,11 @@ func (s *sshSimulatorService) Handle(ctx context.Context, conn net.Conn) error {
 			continue
 		}
 
-		func() {
+		// every channel is served by a goroutine of its own: while this loop
+		// sat in one channel's shell, further channel opens filled the
+		// connection's queue of pending opens and then blocked its packet
+		// loop, so that not even the client's disconnect was noticed any more
+		go func() {
 			for req := range requests {
 				log.Debugf("Request: %s %s %s %s\n", channel, req.Type, req.WantReply, req.Payload)
 
